@@ -32,6 +32,20 @@ def point_starts(T):
     return [p + 1 for p in range(len(T) - 4) if T[p][0] == "F" and (p == 0 or T[p - 1][0] != "F") and T[p + 1][0] == "F"]
 
 
+def point_vals(n):
+    return [n + 1, ((n * 3) % 5) - 2, (n * 7) % 4, 1 + (n % 3)]
+
+
+def dup_stream(T, m):
+    """mirror of Asc!DupStream: the k-th point gets the values of point k % m (the judge checks that this is the specified stream)"""
+    T = [list(t) for t in T]
+    for idx, st in enumerate(point_starts(T)):
+        vals = point_vals(idx % m)
+        for k in range(4):
+            T[st - 1 + k] = ["F", vals[k]]
+    return T
+
+
 def fmt_float(v, style):
     if style == 0:
         return str(v)
@@ -122,6 +136,8 @@ def expand(docs, rng, q):
         base = {"toks": toks, "exp": exp, "label": label}
         cases.append(dict(base, var="complete", run=toks, style=d % 10, api=d % 3))
         cases.append(dict(base, var="complete", run=toks, style=(d + 5) % 10, api=0))
+        for m in (1, 2):          # the same document with coincident points
+            cases.append(dict(base, var="dup", m=m, run=dup_stream(toks, m), style=(d + m) % 10, api=(d + m) % 3))
         ks = list(range(0, len(toks)))
         if q and len(ks) > 12:
             ks = sorted(set(rng.sample(ks, 10) + [len(toks) - 1, len(toks) - 2]))
